@@ -26,6 +26,7 @@ import (
 	"time"
 
 	upgradetypes "cosmossdk.io/x/upgrade/types"
+	sdkversion "github.com/cosmos/cosmos-sdk/version"
 	sdk "github.com/cosmos/cosmos-sdk/types"
 	"github.com/cosmos/cosmos-sdk/types/module"
 	"verifharness/drv"
@@ -38,8 +39,30 @@ type c09Args struct {
 	Param  string `json:"param"`
 	Class  string `json:"class"`
 	World  string `json:"world"`
+	App    *verArg `json:"app"` // Gate: version of the running software
+	Gov    *verArg `json:"gov"` // Gate: name of the upgrade governance completed
 	Mode   string `json:"mode"`
 	Span   string `json:"span"`
+}
+
+// verArg is a software version as the spec writes it: numeric components and an optional pre-release suffix
+type verArg struct {
+	V   []int  `json:"v"`
+	Pre string `json:"pre"`
+}
+
+func (v *verArg) String() string {
+	if v == nil || len(v.V) != 3 {
+		return "v0.0.0"
+	}
+	return fmt.Sprintf("v%d.%d.%d%s", v.V[0], v.V[1], v.V[2], v.Pre)
+}
+
+func (v *verArg) json() map[string]any {
+	if v == nil {
+		return map[string]any{"v": []int{0, 0, 0}, "pre": ""}
+	}
+	return map[string]any{"v": v.V, "pre": v.Pre}
 }
 
 // hostile heights per class (world base 280): see specs/ChainHistory.tla HeightOf
@@ -298,6 +321,16 @@ func runNoAbort(t *testing.T, em *drv.Emitter, w *world, h drv.History, long boo
 	}
 	dead := p.res != "ok" // the chain aborted: nothing more can be delivered
 	initRes, initStack := p.res, p.stack
+	// a Gate step says which software version the node of this history runs: the application is created with it
+	for _, st := range h.Steps[1:] {
+		if st.Act == "Gate" {
+			var ga c09Args
+			must(json.Unmarshal(st.Args, &ga))
+			old := sdkversion.Version
+			sdkversion.Version = ga.App.String()
+			defer func() { sdkversion.Version = old }()
+		}
+	}
 	var c *chain
 	if dead {
 		c = &chain{w: w, e: p.e}
@@ -362,19 +395,21 @@ func runNoAbort(t *testing.T, em *drv.Emitter, w *world, h drv.History, long boo
 				}
 			}
 		case "Gate":
-			ev["args"] = map[string]any{}
+			var ga c09Args
+			must(json.Unmarshal(st.Args, &ga))
+			ev["args"] = map[string]any{"app": ga.App.json(), "gov": ga.Gov.json()}
 			ev["res"] = "skipped"
+			ev["running"] = c.e.App.Version()
 			if dead {
 				break
 			}
-			// governance completed the upgrade to a version newer than the running binary (x/upgrade done marker)
-			// the binary knows the upgrade (a handler is registered), so x/upgrade lets the block begin and x/paloma's
-			// CheckChainVersion compares the versions
-			c.e.App.UpgradeKeeper.SetUpgradeHandler("v9.9.9", func(ctx context.Context, _ upgradetypes.Plan, vm module.VersionMap) (module.VersionMap, error) {
+			name := ga.Gov.String()
+			// governance completed the upgrade `name` (x/upgrade done marker). The binary knows the upgrade (a handler is
+			// registered), so x/upgrade lets the block begin and x/paloma's CheckChainVersion compares the versions.
+			c.e.App.UpgradeKeeper.SetUpgradeHandler(name, func(ctx context.Context, _ upgradetypes.Plan, vm module.VersionMap) (module.VersionMap, error) {
 				return vm, nil
 			})
 			must(c.e.Setup(func(ctx sdk.Context) error {
-				name := "v9.9.9"
 				key := make([]byte, 9+len(name))
 				key[0] = 0x1 // upgradetypes.DoneByte
 				binary.BigEndian.PutUint64(key[1:9], uint64(c.e.Height))
